@@ -1,6 +1,7 @@
 import CookModel.Num.Convert
 import CookModel.Lemmas.ArithRat
 import CookModel.Lemmas.Convert
+import CookModel.Lemmas.ConvertExample
 /-
   C09  Unit conversion preserves the physical amount.
 
@@ -244,33 +245,45 @@ theorem C09_recipe_quantity_dichotomy {c : Converter Rat} (hc : c.Sound) (to : S
   | failed e he => exact Or.inr ⟨e, rfl, rfl, he⟩
   | converted q' u nu hu hr hbest _ _ => exact Or.inl ⟨rfl, u, nu, hu, hr, hbest to rfl⟩
 
-/-! ## non-vacuity: concrete runs of the model on the shipped converter -/
+/-! ## non-vacuity
 
-/-- the standard-definition check is about all 38 shipped units -/
+  Concrete runs of the model on a small hand-written converter (`Ex.conv`, Lemmas/ConvertExample.lean:
+  g, kg, oz, lb, l, cup, °C, °F, m, s with the standard ratios; fractions for imperial units), so that
+  the examples do not depend on the shipped file. -/
+
+/-- the hypotheses of the theorems are satisfiable: the example converter is sound and well formed -/
+example : Ex.conv.Sound := soundB_sound _ (by decide +kernel)
+example : Ex.conv.wf = true := by decide +kernel
+
+/-- the standard-definition check really looks at (almost) all shipped units -/
 example : stdCovered (Converter.bundled Rat).allUnits ≥ 30 := by decide +kernel
 
 /-- 1 kg → lb: 1000/453.59237 lb, and the amount (in grams) is 1000 -/
-example : ((Converter.bundled Rat).convert (.number 1) (.key ['k','g']) (.unit (.key ['l','b']))).toOption.map
+example : (Ex.conv.convert (.number 1) (.key ['k','g']) (.unit (.key ['l','b']))).toOption.map
     (fun r => (r.1, r.2.id, amount (match r.1 with | .number n => n | .range s _ => s) r.2))
-    = some (.number (100000000/45359237), 13, 1000) := by decide +kernel
+    = some (.number (100000000/45359237), 3, 1000) := by decide +kernel
 
-/-- 1500 g to imperial: ends in a unit of the imperial mass list -/
-example : (match convertImpl (Converter.bundled Rat) ⟨.number (.regular 1500), some ['g']⟩ (.best .imperial) with
-    | (q', .ok _) => decide (q'.unit = some ['o','z'])
+/-- 1500 g to imperial: ends in a unit of the imperial mass list, as a fraction -/
+example : (match convertImpl Ex.conv ⟨.number (.regular 1500), some ['g']⟩ (.best .imperial) with
+    | (q', .ok _) => decide (q'.unit = some ['o','z'] ∨ q'.unit = some ['l','b'])
     | _ => false) = true := by decide +kernel
 
-/-- 1/2 cup stays 1/2 cup, as a fraction -/
-example : (fit (Converter.bundled Rat) ⟨.number (.regular (1/2)), some ['c','u','p']⟩).1
+/-- 1/2 cup stays 1/2 cup, as a fraction with no error -/
+example : (fit Ex.conv ⟨.number (.regular (1/2)), some ['c']⟩).1
     = ⟨.number (.fraction 0 1 2 0), some ['c']⟩ := by decide +kernel
 
+/-- 2500 g is fitted to 2.5 kg (same system, no fractions for metric units) -/
+example : (fit Ex.conv ⟨.number (.regular 2500), some ['g']⟩).1
+    = ⟨.number (.regular (5/2)), some ['k','g']⟩ := by decide +kernel
+
 /-- kg → l is refused and the quantity untouched -/
-example : (match convertImpl (Converter.bundled Rat) ⟨.number (.regular 1), some ['k','g']⟩ (.unit (.key ['l'])) with
+example : (match convertImpl Ex.conv ⟨.number (.regular 1), some ['k','g']⟩ (.unit (.key ['l'])) with
     | (q', .error e) => decide (q' = ⟨.number (.regular 1), some ['k','g']⟩ ∧ e = .mixedQuantities .mass .volume)
     | _ => false) = true := by decide +kernel
 
-/-- 100 °C = 212 °F within the shipped 0.55555555556 -/
-example : (match (Converter.bundled Rat).convert (.number 100) (.key ['C']) (.unit (.key ['F'])) with
-    | .ok (.number x, _) => decide (Rat.abs (x - 212) < 1/100000000)
+/-- 100 °C = 212 °F exactly with the standard definitions -/
+example : (match Ex.conv.convert (.number 100) (.key ['C']) (.unit (.key ['F'])) with
+    | .ok (.number x, _) => decide (x = 212)
     | _ => false) = true := by decide +kernel
 
 end Cook
